@@ -150,6 +150,37 @@ func main() {
 		guards = append(guards, fmt.Sprintf("%s: guard-before-make %v", fn, ok))
 	}
 	ex.DefStrList("msgGuards", guards)
+
+	// payload codecs of the p2p / DPoS p2p messages, fully inlined (writer/reader mirror, derived schemas)
+	wiretok.Deep = true
+	wiretok.WalkCases = true
+	var mstreams []wiretok.Stream
+	for _, mt := range []struct{ dir, typ string }{
+		{"p2p/msg", "Version"}, {"p2p/msg", "Addr"}, {"p2p/msg", "Ping"}, {"p2p/msg", "Pong"}, {"p2p/msg", "Inv"},
+		{"p2p/msg", "GetBlocks"}, {"p2p/msg", "FilterAdd"}, {"p2p/msg", "FilterLoad"}, {"p2p/msg", "TxFilterLoad"},
+		{"p2p/msg", "Reject"}, {"p2p/msg", "DAddr"}, {"p2p/msg", "MerkleBlock"},
+		{"dpos/p2p/msg", "Version"}, {"dpos/p2p/msg", "VerAck"}, {"dpos/p2p/msg", "Addr"}, {"dpos/p2p/msg", "Ping"},
+		{"dpos/p2p/msg", "Pong"}, {"dpos/p2p/msg", "Vote"}, {"dpos/p2p/msg", "Proposal"}, {"dpos/p2p/msg", "Inventory"},
+		{"dpos/p2p/msg", "GetBlock"}, {"dpos/p2p/msg", "GetBlocks"}, {"dpos/p2p/msg", "ResponseBlocks"},
+		{"dpos/p2p/msg", "RequestConsensus"}, {"dpos/p2p/msg", "ResponseConsensus"}, {"dpos/p2p/msg", "RequestProposal"},
+		{"dpos/p2p/msg", "IllegalProposals"}, {"dpos/p2p/msg", "IllegalVotes"}, {"dpos/p2p/msg", "SidechainIllegalData"},
+		{"dpos/p2p/msg", "ResponseInactiveArbitrators"}, {"dpos/p2p/msg", "ResponseRevertToDPOS"}, {"dpos/p2p/msg", "ResetView"},
+	} {
+		mstreams = append(mstreams, wiretok.Pair(mt.dir+"."+mt.typ, mt.dir, mt.typ, "Serialize", "Deserialize"))
+	}
+	wiretok.Print("msgStreams", mstreams)
+	wiretok.PrintMakes("msgMakes", mstreams)
+	var msized []string
+	for _, st := range mstreams {
+		for _, mk := range st.Makes {
+			if strings.Contains(mk, ",") && !constLen.MatchString(mk) {
+				msized = append(msized, st.Name+": "+mk)
+			}
+		}
+	}
+	ex.DefStrList("msgSizedMakes", msized)
+	wiretok.Deep = false
+	wiretok.WalkCases = false
 	// for each pre-sizing p2p reader: every make(…) whose size mentions the wire count, paired with
 	// "was an `if count > <Max> { return … }` statement seen before it?"
 	fmt.Printf("def p2pCountMakes : List (String × String × Bool) := [")
